@@ -40,6 +40,8 @@ def key_term(B, st, d, k):
 
 
 def dict_has(B, st, d, k):
+    if st.ghost.get("dyn") and isinstance(d, VDict):
+        return z3.simplify(z3.Select(z3.Select(st.dhas(_ks(d)), d.ref), key_term(B, st, d, k)))
     if isinstance(d, VCDict):
         if isinstance(k, VStr):
             return z3.Or([k.t == z3.StringVal(x) for x in d.items]) if d.items else z3.BoolVal(False)
@@ -52,6 +54,8 @@ def dict_has(B, st, d, k):
 def dict_get_raw(B, st, d, k):
     dv = st.dval(_ks(d), _vs(d))
     term = z3.Select(z3.Select(dv, d.ref), key_term(B, st, d, k))
+    if st.ghost.get("dyn"):
+        term = z3.simplify(term)
     v = B.eng.wrap(st, term, d.vt)
     B.eng.assume_wf(st, v, dv if z3.is_const(dv) else None)
     return v
